@@ -129,16 +129,11 @@ fn stamp_value(src_meta: &std::fs::Metadata) -> Option<String> {
     // v2: sidecars store low-cardinality string columns DICTIONARY-encoded
     // (see build_sidecar) — the version prefix retires every v1 sidecar so
     // mixed formats can never be served.
-    Some(format!(
-        "v2:{}:{}",
-        src_meta.len(),
-        src_meta
-            .modified()
-            .ok()?
-            .duration_since(std::time::UNIX_EPOCH)
-            .ok()?
-            .as_secs()
-    ))
+    // v3: the source identity is length + mtime (ns) + change time + inode,
+    // not length + whole-second mtime: a same-length rewrite within one
+    // second, or with the mtime preserved, must retire the sidecar too.
+    let stamp = crate::storage::metadata_cache::FileStamp::of(src_meta).ok()?;
+    Some(format!("v3:{}", stamp.to_token()?))
 }
 
 fn is_fresh(dir: &Path, src_meta: &std::fs::Metadata) -> bool {
